@@ -18,7 +18,7 @@ Lemma walk_upd s i v t res r obs o : walk s ((OUpd i v t, res) :: r) obs = Some 
   exists b t' c, res = RState b t' c true /\ bits (rsl_update s i v t) = b /\ ts (rsl_update s i v t) = t' /\
                  walk (rsl_update s i v t) r ((c, acc (rsl_update s i v t)) :: obs) = Some o.
 Proof.
-  cbn [walk]. destruct res as [b t' c u| |]; try discriminate.
+  cbn [walk]. destruct res as [b t' c u| | |]; try discriminate.
   destruct (state_matches _ b t' && u) eqn:E; [|discriminate]. apply andb_prop in E. destruct E as [E ->].
   apply state_matches_eq in E. destruct E as [E1 E2]. intros Hw. exists b, t', c. auto.
 Qed.
@@ -26,7 +26,7 @@ Lemma walk_touch s t res r obs o : walk s ((OTouch t, res) :: r) obs = Some o ->
   exists b t' c, res = RState b t' c true /\ bits s = b /\ t' = Some t /\
                  walk (rsl_touch s t) r ((c, acc s) :: obs) = Some o.
 Proof.
-  cbn [walk]. destruct res as [b t' c u| |]; try discriminate.
+  cbn [walk]. destruct res as [b t' c u| | |]; try discriminate.
   destruct (state_matches _ b t' && u) eqn:E; [|discriminate]. apply andb_prop in E. destruct E as [E ->].
   apply state_matches_eq in E. destruct E as [E1 E2]. cbn [rsl_touch bits ts] in *. intros Hw. exists b, t', c. auto.
 Qed.
@@ -37,7 +37,7 @@ Lemma walk_issue s i res r obs o : walk s ((OIssue i, res) :: r) obs = Some o ->
   | _ => False
   end.
 Proof.
-  cbn [walk]. destruct res as [b t' c u|c|]; try discriminate.
+  cbn [walk]. destruct res as [b t' c u|c| |]; try discriminate.
   - destruct (issue_acc s i); [eauto|discriminate].
   - destruct (issue_acc s i); [discriminate|auto].
 Qed.
@@ -58,7 +58,7 @@ Lemma c09_transfer n bd t0 init steps : ok_C09 n bd t0 init steps = true ->
   exists b t c f obs, init = RState b t c f /\ bits (rsl_create n bd t0) = b /\ ts (rsl_create n bd t0) = t /\
     walk (rsl_create n bd t0) steps [(c, acc (rsl_create n bd t0))] = Some obs /\ classes_agree n obs = true.
 Proof.
-  unfold ok_C09. destruct init as [b t c f| |]; try discriminate. intros H. apply andb_prop in H. destruct H as [H1 H2].
+  unfold ok_C09. destruct init as [b t c f| | |]; try discriminate. intros H. apply andb_prop in H. destruct H as [H1 H2].
   apply state_matches_eq in H1. destruct H1. destruct (walk _ steps _) as [obs|] eqn:E; [|discriminate].
   exists b, t, c, f, obs. auto.
 Qed.
